@@ -38,7 +38,7 @@ class Machine:
         self.params = {}             # last value of non-axis words on motion lines
         self.last_halt = None
         # traces
-        self.moves = []              # (code, before, after, words) for G0/G1
+        self.moves = []              # (code, before, after, axis words, other words, budget) for G0/G1
         self.events = []             # interlock-relevant events, in order
         self.nlines = 0
 
@@ -88,7 +88,7 @@ class Machine:
                     self.pos[a] = v
                     self.budget[a] = self.half
             self._motion_params(others)
-            self.moves.append((code, before, self.snapshot_pos(), dict(axes), dict(others)))
+            self.moves.append((code, before, self.snapshot_pos(), dict(axes), dict(others), dict(self.budget)))
         elif code in PROBE_CODES:
             for a in axes:
                 self.pos[a] = None
